@@ -21,7 +21,8 @@ chk.extra['rule'] = ('toy source/target force fields (1-3 residue types; one-to-
                      'permuted keys; shuffled node order; chains); a case is non-trivial if it has >= 2 placements and '
                      '>= 1 bond between placements, or an overlap / unmapped / spawned feature; distinct = distinct '
                      'protocol line')
-chk.lean(['VermouthProps.C01', 'VermouthProps.C01_Attr', 'VermouthProps.C01_ModAttr', 'VermouthProps.C01_Events'], 'driver_c01')
+chk.lean(['VermouthProps.C01', 'VermouthProps.C01_Attr', 'VermouthProps.C01_ModAttr', 'VermouthProps.C01_Events',
+          'VermouthProps.C01_AttrLink'], 'driver_c01')
 
 import networkx as nx
 import vermouth
